@@ -18,7 +18,7 @@
 (*   U1 unevaluatedProperties   U2 unevaluatedItems                        *)
 (*   G1 draft-07 arrays  G2 draft-07 dependencies  G3 draft-07 $ref/$id    *)
 (***************************************************************************)
-EXTENDS EvalCode, Json
+EXTENDS EvalCode, Json, SequencesExt
 
 CONSTANTS Family, K, Dr
 
@@ -339,8 +339,6 @@ InstSet ==
     [] Family = "G5" -> G3Vals \cup ArrVals \cup {Obj([a |-> Num(R_1), b |-> Num(R_1)])}
     [] Family = "DY" -> DyVals
 
-RECURSIVE SetToSeq(_)
-SetToSeq(S) == IF S = {} THEN <<>> ELSE LET x == CHOOSE y \in S : TRUE IN <<x>> \o SetToSeq(S \ {x})
 Insts == SetToSeq(InstSet)
 
 \* multipleOf is only specified on the dyadic / 2^53 domain
